@@ -40,6 +40,7 @@ public:
 public:
   Token token;
   Position pos;
+  Position commentEnd; // position after the comment skipped last by skipSpace
 
   int errorLine;
   int errorColumn;
@@ -167,6 +168,7 @@ void Xml::Private::skipSpace()
           if(!end)
           {
             pos.pos = pos.pos + String::length(pos.pos);
+            commentEnd = pos;
             return;
           }
           pos.pos = end;
@@ -187,6 +189,7 @@ void Xml::Private::skipSpace()
             if(String::compare(pos.pos + 1, "->", 2) == 0)
             {
               pos.pos = end + 3;
+              commentEnd = pos;
               break;
             }
             ++pos.pos;
@@ -368,6 +371,7 @@ bool Xml::Private::parseElement(Element& element)
   for(;;)
   {
     Position pos = this->pos;
+    commentEnd.pos = 0;
     if(readToken())
     {
       if(token.type == Token::endTagBeginType)
@@ -380,7 +384,7 @@ bool Xml::Private::parseElement(Element& element)
         continue;
       }
       else
-        this->pos = pos;
+        this->pos = commentEnd.pos ? commentEnd : pos; // text starts behind the last comment
     }
     String string;
     if(!parseText(string))
